@@ -112,6 +112,9 @@ type Client struct {
 	// forcefully killed.
 	processKilled bool
 
+	// launched is set once Start has gone as far as creating the runner.
+	launched bool
+
 	unixSocketCfg UnixSocketConfig
 
 	grpcMuxerOnce sync.Once
@@ -586,6 +589,12 @@ func (c *Client) Start() (addr net.Addr, err error) {
 		return c.address, nil
 	}
 
+	// A client launches its plugin at most once: a failed launch is not
+	// retried by a later call (a new Client has to be created for that).
+	if c.launched {
+		return nil, errors.New("plugin was already launched once by this client and failed to start")
+	}
+
 	// If one of cmd or reattach isn't set, then it is an error. We wrap
 	// this in a {} for scoping reasons, and hopeful that the escape
 	// analysis will pop the stack here.
@@ -707,6 +716,8 @@ func (c *Client) Start() (addr net.Addr, err error) {
 	if c.unixSocketCfg.Group != "" {
 		cmd.Env = append(cmd.Env, fmt.Sprintf("%s=%s", EnvUnixSocketGroup, c.unixSocketCfg.Group))
 	}
+
+	c.launched = true
 
 	var runner runner.Runner
 	switch {
